@@ -67,6 +67,10 @@ macro_rules! value {
 //         .collect()
 // }
 
+fn number_into_u64(amount: i128, target: &str) -> Result<u64, Error> {
+    u64::try_from(amount).map_err(|_| Error::CoerceError(format!("{amount}"), target.to_string()))
+}
+
 fn compile_struct(ir: &tir::StructExpr) -> Result<primitives::PlutusData, Error> {
     let fields = ir
         .fields
@@ -101,7 +105,8 @@ fn compile_native_asset_for_output(
     let policy = primitives::Hash::from(policy.as_slice());
     let asset_name = coercion::expr_into_bytes(&ir.asset_name)?;
     let amount = coercion::expr_into_number(&ir.amount)?;
-    let amount = primitives::PositiveCoin::try_from(amount as u64).unwrap();
+    let amount = primitives::PositiveCoin::try_from(number_into_u64(amount, "PositiveCoin")?)
+        .map_err(|x| Error::CoerceError(format!("{x}"), "PositiveCoin".to_string()))?;
 
     let asset = asset!(policy, asset_name.clone(), amount);
 
@@ -117,11 +122,14 @@ fn compile_native_asset_for_mint(
     let asset_name = coercion::expr_into_bytes(&ir.asset_name)?;
     let amount = coercion::expr_into_number(&ir.amount)?;
 
-    let amount = if !is_burn {
-        primitives::NonZeroInt::try_from(amount as i64).unwrap()
-    } else {
-        primitives::NonZeroInt::try_from(-amount as i64).unwrap()
-    };
+    let amount = if !is_burn { Some(amount) } else { amount.checked_neg() };
+
+    let amount = amount
+        .and_then(|x| i64::try_from(x).ok())
+        .and_then(|x| primitives::NonZeroInt::try_from(x).ok())
+        .ok_or_else(|| {
+            Error::CoerceError(format!("{:?}", ir.amount), "NonZeroInt".to_string())
+        })?;
 
     let asset = asset!(policy, asset_name.clone(), amount);
 
@@ -138,7 +146,7 @@ fn compile_value(ir: &tir::AssetExpr) -> Result<primitives::Value, Error> {
     let amount = coercion::expr_into_number(&ir.amount)?;
     if ir.policy.is_none() {
         compile_ada_value(ir)
-    } else if amount as i64 > 0 {
+    } else if amount > 0 {
         let asset = compile_native_asset_for_output(ir)?;
         Ok(value!(0, asset))
     } else {
@@ -383,7 +391,7 @@ pub fn compile_withdrawal_directive(
         .get("amount")
         .ok_or(Error::MissingExpression("withdrawal amount".to_string()))?;
     let amount = coercion::expr_into_number(amount)?;
-    let amount = primitives::Coin::try_from(amount as u64).unwrap();
+    let amount: primitives::Coin = number_into_u64(amount, "Coin")?;
 
     Ok((credential, amount))
 }
@@ -478,13 +486,15 @@ fn compile_validity(validity: Option<&tir::Validity>) -> Result<(Option<u64>, Op
         .and_then(|v| v.since.as_option())
         .map(coercion::expr_into_number)
         .transpose()?
-        .map(|n| n as u64);
+        .map(|n| number_into_u64(n, "slot"))
+        .transpose()?;
 
     let until = validity
         .and_then(|v| v.until.as_option())
         .map(coercion::expr_into_number)
         .transpose()?
-        .map(|n| n as u64);
+        .map(|n| number_into_u64(n, "slot"))
+        .transpose()?;
 
     Ok((since, until))
 }
@@ -497,7 +507,8 @@ fn compile_donation(tx: &tir::Tx) -> Result<Option<pallas::codec::utils::Positiv
         .map(coercion::expr_into_number)
         .transpose()?
         .map(|amount| {
-            pallas::codec::utils::PositiveCoin::try_from(amount as u64).map_err(|_| {
+            let coin = number_into_u64(amount, "PositiveCoin")?;
+            pallas::codec::utils::PositiveCoin::try_from(coin).map_err(|_| {
                 Error::CoerceError(
                     format!("Invalid donation amount: {}", amount),
                     "PositiveCoin".to_string(),
@@ -516,7 +527,7 @@ fn compile_tx_body(
     let out = primitives::TransactionBody {
         inputs: compile_inputs(tx)?.into(),
         outputs: compile_outputs(tx, network)?,
-        fee: coercion::expr_into_number(&tx.fees)? as u64,
+        fee: number_into_u64(coercion::expr_into_number(&tx.fees)?, "fee")?,
         certificates: primitives::NonEmptySet::from_vec(compile_certs(tx, network)?),
         mint: compile_mint_block(tx)?,
         reference_inputs: primitives::NonEmptySet::from_vec(compile_reference_inputs(tx)?),
@@ -545,7 +556,7 @@ fn compile_auxiliary_data(tx: &tir::Tx) -> Result<Option<primitives::AuxiliaryDa
         .metadata
         .into_iter()
         .map(|x| {
-            let key = expr_into_number(&x.key)? as u64;
+            let key = number_into_u64(expr_into_number(&x.key)?, "metadata label")?;
             let value = expr_into_metadatum(&x.value)?;
             Ok((key, value))
         })
